@@ -216,3 +216,11 @@ Example C15_example_overwrite :
   default_cog_block None 20 600 = (32, 512) /\
   overview_levels None 512 600 = [2; 4; 8; 16; 32] /\ overview_levels None 511 600 = [].
 Proof. vm_compute. repeat split; reflexivity. Qed.
+
+(** Tie to the source: adjust_blocksize and num_overviews (its while loop as a fixpoint on explicit
+    fuel) as regenerated by tools/py2v from the current odc/geo/cog/_shared.py (coq/Gen/CogGen.v,
+    rewritten on every run) are the model (Model/CogLayout.v) the theorems above are stated on. *)
+From OG Require Proofs.CogGenEquiv.
+Theorem C15_source_is_model : OG.Proofs.CogGenEquiv.cog_source_is_model.
+Proof. exact OG.Proofs.CogGenEquiv.cog_source_is_model_holds. Qed.
+Print Assumptions C15_source_is_model.
